@@ -217,7 +217,7 @@ Proof. intros H. unfold related_files, dir_names. rewrite H. reflexivity. Qed.
 Lemma existing_rot_empty off sp fixed f flt sel : names f = [] -> existing_rot off sp fixed f flt sel = Some [].
 Proof.
   intros H. unfold existing_rot. rewrite related_files_empty by assumption.
-  destruct (sel_plain sel), (sel_gz sel), (sel_rcur sel), (sel_custom sel); reflexivity.
+  destruct (sel_plain sel), (sel_gz sel), (sel_rcur sel), (sel_custom sel) as [cu|]; cbn [andb]; try destruct (beq cu cur_infix); reflexivity.
 Qed.
 
 Lemma lookup_empty f n : names f = [] -> lookup f n = None.
